@@ -4,6 +4,7 @@
 //! usage: vharness <suite> <seed> <cases> <out-file>
 
 mod gen;
+mod loopsim;
 mod sim;
 mod util;
 
@@ -20,6 +21,15 @@ fn main() {
     let cases: usize = args[3].parse().expect("cases");
     let out = args[4].clone();
     sim::silent_panics();
+    if suite == "udp" {
+        let mut trace = String::new();
+        for case in 0..cases {
+            trace.push_str(&loopsim::udp_case(seed, case));
+        }
+        std::fs::write(&out, trace).expect("write out file");
+        println!("{{\"cases\":{cases}}}");
+        return;
+    }
     let rt = tokio::runtime::Builder::new_current_thread()
         .enable_all()
         .start_paused(true)
